@@ -557,3 +557,10 @@ def run(ctx: Ctx, rep: Report, tier: str) -> None:
     sub = Report("C19")
     splitter_vocabulary(ctx, sub, "R09.5")
     rep.absorb(sub, "R19.6")
+    # R19.7 premise: an ACL built with group_by re-groups after the split; flattening and re-grouping carry every entry
+    # over exactly once and in order (C15 R15.1), otherwise the split entries do not stay where the original stood
+    from .c15 import r15_1
+
+    sub15 = Report("C19")
+    r15_1(ctx, sub15)
+    rep.absorb(sub15, "R19.7")
